@@ -150,7 +150,8 @@ let do_trace (live : bool) (id : string) (body : string) =
     List.iter (fun w ->
       let ok = List.for_all (fun (seg, cut) ->
         let obs = List.filter_map (function
-            | Q (w', k, m) when w' = w -> Some (tok k m, is_free_order_message m.m_type)
+            | Q (w', k, m) when w' = w && int_of_n m.m_type <> 22 (* SnapshotReceived: sent by the transport *) ->
+              Some (tok k m, is_free_order_message m.m_type)
             | P (_, w', u) when w' = w -> Some ("P" ^ key_str (ukey u), false)
             | _ -> None) seg in
         let ps = List.filter_map (function P (b, w', u) when w' = w -> Some (b, u) | _ -> None) seg in
@@ -197,6 +198,23 @@ let () =
           let us = List.filter_map (fun p -> let p = String.trim p in
                                      if p = "" then None else Some (parse_upd (kv_of (split_ws p)))) (split_on " ; " body) in
           Printf.printf "%s eng %s\n" id (String.concat " " (skeleton_tokens (step_skeleton us)))
+        | "ondisk" ->
+          let body =
+            match Str.search_forward (Str.regexp_string "| ") rest 0 with
+            | i -> String.sub rest (i + 2) (String.length rest - i - 2)
+            | exception Not_found -> "" in
+          let evs = List.filter_map (fun p ->
+              match split_ws p with
+              | [] -> None
+              | ["OA"; i] -> Some (OApply (n i))
+              | ["OS"; i] -> Some (OSync (n i))
+              | ["ON"; i] -> Some (OSnap (n i))
+              | ["OX"; i] -> Some (OCut (n i))
+              | ["OF"] -> Some OFail
+              | _ -> failwith ("bad on-disk event " ^ p)) (split_on " ; " body) in
+          let ((st, pos), code) = odsm_run { os_synced = N0; os_snap = N0 } N0 evs in
+          if code = N0 then Printf.printf "%s od ok synced=%s snap=%s\n" id (s_of st.os_synced) (s_of st.os_snap)
+          else Printf.printf "%s od bad@%s:%s synced=%s snap=%s\n" id (s_of pos) (s_of code) (s_of st.os_synced) (s_of st.os_snap)
         | "live" | "trace" ->
           let body =
             match Str.search_forward (Str.regexp_string "| ") rest 0 with
